@@ -22,7 +22,9 @@
 3. the property itself: EVERY tree the real code hands out or keeps in a population — plain fuzzing, evolution
    (every individual that reaches `Evaluator.evaluate_individual`, every emitted solution), generators,
    operator results built from derivations — is judged by the verified checker `validFast`
-   (`C01_checker_decides_valid`: = `Valid`); regexes through the CPython `re.fullmatch` oracle.
+   (`C01_checker_decides_valid`: = `Valid`); regexes through the CPython `re.fullmatch` oracle.  A tree is
+   serialised at the moment it is handed over (`Snaps`, `FuzzCall.tree_json`): what the code does to the object
+   afterwards only counts if the object is handed over again.
 """
 from __future__ import annotations
 
